@@ -104,6 +104,10 @@ func newEnv(fka bool) (*env, error) {
 			e.ran("vperm")
 			return nil
 		})))
+	mgr.Register(brigodier.Literal("VMix").Executes(command.Command(func(c *command.Context) error {
+		e.ran("vmix")
+		return nil
+	})))
 	mgr.Register(brigodier.Literal("vargs").Then(
 		brigodier.Argument("word", brigodier.StringWord).Executes(command.Command(func(c *command.Context) error {
 			e.ran("vargs")
